@@ -1,6 +1,8 @@
 # C05 — extension fields GF(p^k) behave as F_p[X]/(f) with f irreducible.   (DESIGN 5/C05)
 # proof:  coq/C05 — Zech-logarithm macros of gfq.inl over an abstract field (all elements, all fields),
-#         array forms with the loop bounds of the code, executable table builder
+#         array forms with the loop bounds of the code, executable table builder, per-field certificate (fg_ok + tables_ok),
+#         Extension<> operations incl. inv/div (partial), every GF2 overload, the q-adic transform of GFqExtFast
+#         (REDQ decode, delayed reduction bound = maxdot(), numerator read from gfqext.h)
 # tie:    correspondence: extracted model (tables built from the (p,k,f,g) the implementation reports, and
 #         every macro / member function / array form)  vs  GFqDom<int32_t|int64_t> of /repo's current headers
 # search: python oracle = F_p[X]/(f) on coefficient lists, its own tables, brute-force irreducibility and
@@ -650,6 +652,8 @@ def main(tier, replay=None):
         "Coq 8.16.1 kernel + vm_compute (no native_compute)",
         "extraction: ExtrOcamlBasic only; Z/positive/nat kept as extracted inductives; OCaml 4.13.1; zarith only for text I/O",
         "the model is hand-written after the macros of gfq.inl; polynomial product/remainder inside the table builder are specification-level (Poly1Dom is property C08)",
+        "GFqExtFast q-adic model (QadicModel.v): the tables _low2log/_high2log are modelled by their specification (residue polynomial of the index digits); the floating-point quotient d/p of init(double) is the exact floor; callers' double arithmetic on integers below 2^53 is exact",
+        "Extension inv/div (ExtModel.v, Poly1Dom::invmod): partial correctness proved; totality observed per call",
         "harness/c05_gfq.C, harness/c05_ext.C, checks/C05.py (generators, python F_p[X]/(f) oracle, brute-force irreducibility/primitivity)",
         "g++ / x86-64 for the implementation side",
     ]
